@@ -25,7 +25,8 @@ RULE = ("(configured path, directory population, policy) triples: paths over the
         "a b . [ ] * ? ! - {{ }} space with {time…} fields and 0-2 directory components; populations of family "
         "members (decorated before/after the extension, fields instantiated), look-alike neighbours (names a "
         "non-escaped metacharacter would match, other extension, missing dot, prefixes/suffixes, same name in a "
-        "sub/parent directory), directories and symlinks named like logs, mtimes with ties; policy = count N, "
+        "sub/parent directory), directories, symlinks (to file, directory, FIFO, nothing), FIFOs, bound unix sockets "
+        "and character devices named like logs, mtimes with ties; policy = count N, "
         "duration in every documented spelling incl. fractional values, ms/us units and timedeltas with a "
         "microsecond part (frozen clock; file ages on both sides of the exact limit from 1 ms to hours, inside the "
         "sub-second part of the duration, and the limit itself) or callable, triggered by a rotation or by "
@@ -542,7 +543,8 @@ def age_deltas(rng, dur_us):
 
 
 # ----------------------------------------------------------------------------- end to end (stream iii)
-KINDS = ["file", "file", "file", "file", "file", "file", "file", "dir", "dirfull", "linkfile", "linkdir", "dangling"]
+KINDS = ["file", "file", "file", "file", "file", "file", "file", "dir", "dirfull", "linkfile", "linkdir", "dangling",
+         "fifo", "fifo", "socket", "socket", "linkfifo", "chardev"]
 DECOR = ["1", "2", "2020-01-01", "gz", "a.b", "", "log", "[", "*", "x y", "2019-12-31_23-59-59_000000", "!", "-"]
 
 
@@ -650,6 +652,34 @@ def gen_case(rng, idx):
     return case
 
 
+def kind_letter(p):
+    """file type as os.stat reports it (links followed): r d p(ipe) s(ocket) c b, m(issing) for a dangling link"""
+    import stat as st
+    try:
+        mode = os.stat(p).st_mode
+    except OSError:
+        return "m"
+    for test, letter in ((st.S_ISREG, "r"), (st.S_ISDIR, "d"), (st.S_ISFIFO, "p"), (st.S_ISSOCK, "s"),
+                         (st.S_ISCHR, "c"), (st.S_ISBLK, "b")):
+        if test(mode):
+            return letter
+    return "m"
+
+
+def make_socket(p):
+    """a bound AF_UNIX socket at p (bound through a relative name: sun_path is limited to ~107 bytes)"""
+    import socket
+    d, b = os.path.split(p)
+    cwd = os.getcwd()
+    sk = socket.socket(socket.AF_UNIX)
+    try:
+        os.chdir(d or ".")
+        sk.bind(b)
+    finally:
+        os.chdir(cwd)
+        sk.close()
+
+
 def snapshot(root):
     """relative path -> dict(kind, isfile, mtime_ns, content) for everything below `root`"""
     out = {}
@@ -669,7 +699,8 @@ def snapshot(root):
                         content = fh.read(64)
                 except OSError:
                     pass
-            out[p] = {"isdir": os.path.isdir(p) and not isl, "islink": isl, "isfile": isf, "mtime": mt, "content": content}
+            out[p] = {"isdir": os.path.isdir(p) and not isl, "islink": isl, "isfile": isf, "mtime": mt, "content": content,
+                      "kind": kind_letter(p)}
     return out
 
 
@@ -741,6 +772,8 @@ def run_case(case, case_root, keep=False):
     os.makedirs(targets + "/dirT", exist_ok=True)
     with open(targets + "/fileT", "w") as fh:
         fh.write("target\n")
+    if not os.path.lexists(targets + "/fifoT"):
+        os.mkfifo(targets + "/fifoT")
     with _FrozenClock(t_frozen):
         lg = hid = sink = None
         try:
@@ -777,19 +810,29 @@ def run_case(case, case_root, keep=False):
                         os.symlink(os.path.abspath(targets + "/fileT"), p)
                     elif k == "linkdir":
                         os.symlink(os.path.abspath(targets + "/dirT"), p)
+                    elif k == "fifo":
+                        os.mkfifo(p)
+                    elif k == "socket":
+                        make_socket(p)
+                    elif k == "linkfifo":
+                        os.symlink(os.path.abspath(targets + "/fifoT"), p)
+                    elif k == "chardev":
+                        import stat as _st
+                        os.mknod(p, 0o600 | _st.S_IFCHR, os.makedev(1, 3))   # needs privileges: skipped otherwise
                     else:
                         os.symlink(os.path.abspath(targets + "/nothing"), p)
                     if case["policy"] == "age":
                         mt_ns = (t_frozen * 10**6 - dur_us + ent.get("delta_us", ent["delta"] * 10**6)) * 1000
                     else:
                         mt_ns = (base_count + ent["delta"]) * 10**9
-                    if k in ("file", "dir", "dirfull"):
+                    if k in ("file", "dir", "dirfull", "fifo", "socket", "chardev"):
                         os.utime(p, ns=(mt_ns, mt_ns))
                 except (OSError, NotADirectoryError):
                     ent["skipped"] = True
             # the shared symlink target gets a fixed, old mtime
             mt_ns = ((t_frozen * 10**6 - dur_us - 7 * 10**6) * 1000 if case["policy"] == "age" else (base_count + 40) * 10**9)
             os.utime(targets + "/fileT", ns=(mt_ns, mt_ns))
+            os.utime(targets + "/fifoT", ns=(mt_ns, mt_ns))
 
             def do(op):
                 if op in ("m1\n", "m2\n"):
@@ -844,7 +887,9 @@ def judge(case, info, op, before, after, expect_ret, exc, calls, t_frozen, steps
         elif not in_family(info, d):
             probs.append(("oracle", "%r was removed but is not in the family of %r" % (d, path)))
         elif not b["isfile"]:
-            probs.append(("oracle", "%r was removed but was not a regular file" % d))
+            what = {"p": "a FIFO", "s": "a socket", "c": "a character device", "b": "a block device",
+                    "m": "a dangling link"}.get(b.get("kind"), "not a regular file")
+            probs.append(("oracle", "%r was removed but was %s, not a regular file" % (d, what)))
     if not expect_ret:
         if D:
             probs.append(("oracle", "%r removed %r although no retention is due at this point" % (op, D)))
@@ -864,7 +909,7 @@ def judge(case, info, op, before, after, expect_ret, exc, calls, t_frozen, steps
     managed = sorted(n for n, a in pool.items() if a["isfile"] and is_managed(info, n))
     survivors = [n for n in managed if n in after and n != new or (n in after and n not in D and n != new)]
     survivors = [n for n in managed if n not in D]
-    step = {"op": op, "pool": [(n, pool[n]["isfile"], pool[n]["mtime"]) for n in sorted(pool)], "deleted": D,
+    step = {"op": op, "pool": [(n, pool[n]["kind"], pool[n]["mtime"]) for n in sorted(pool)], "deleted": D,
             "policy": case["policy"], "arg": case["arg"], "now": t_frozen, "calls": [c[0] for c in calls],
             "dur_us": case_dur_us(case),
             "age_cfg": (("s", case["age_spelling"]) if case.get("age_spelling") is not None else
@@ -911,12 +956,12 @@ def judge(case, info, op, before, after, expect_ret, exc, calls, t_frozen, steps
 def model_lines(case, path, steps):
     lines = []
     for st in steps:
-        ents = " ".join("%s %d %d" % (enc(n), 1 if f else 0, m) for n, f, m in st["pool"])
+        ents = " ".join("%s %s %d" % (enc(n), f, m) for n, f, m in st["pool"])
         if st["policy"] == "count":
             lines.append(("ret %s c %d 0 %s" % (enc(path), st["arg"], ents)).rstrip())
         elif st["policy"] == "age":
             kind, arg = st["age_cfg"]
-            ents_us = " ".join("%s %d %d" % (enc(n), 1 if f else 0, m // 1000) for n, f, m in st["pool"])
+            ents_us = " ".join("%s %s %d" % (enc(n), f, m // 1000) for n, f, m in st["pool"])
             lines.append(("retcfg %s %s %s %d %s" % (enc(path), kind, enc(arg) if kind == "s" else "%d" % arg,
                                                      st["now"] * 10**6, ents_us)).rstrip())
         else:
@@ -970,6 +1015,9 @@ def stream_e2e(ctx, drv, rng, cases=None):
             ctx.stat("e2e_trigger_" + case["trigger"])
             ctx.stat("e2e_api_" + case["api"])
             ctx.stat("e2e_removed_files", sum(len(st["deleted"]) for st in steps))
+            for e in case["entries"]:
+                if not e.get("skipped"):
+                    ctx.stat("e2e_kind_" + e["kind"])
             ctx.stat("e2e_family_entries", nfam)
             ctx.stat("e2e_neighbour_entries", len(names) - nfam)
             if any("hidden_family" in st for st in steps):
